@@ -37,9 +37,13 @@ type txModel struct {
 	documented   bool
 	expected     dbState
 	// result of the last readrows task
-	hasFinal          bool
+	hasFinal            bool
 	finalMust, finalMay []Row
-	finalCols         []string
+	finalCols           []string
+	// finalLost: the last readrows task has parameters without a reading
+	finalLost bool
+	// wrote: a modelled task changed rows before the end of the list
+	wrote bool
 }
 
 func (m *txModel) add(k string) {
@@ -66,73 +70,58 @@ func modelTx(op *Op, before dbState, rowids bool) *txModel {
 	for t, rows := range before {
 		m.expected[t] = cloneRows(rows)
 	}
-	dictText := map[string]string{}
-	dictVal := map[string]any{}
-	noReading := func(kind string) {
-		m.hasReading = false
-		m.documented = false
-		if kind != "" {
-			m.add(kind)
-		}
-	}
-	// poisoned: a symbols task stored a value the documentation gives no
-	// textual form for (non-string, non-integer, or text containing braces);
-	// it only matters for later texts that contain a reference at all.
+	dictText := map[string]string{} // symbols with a documented textual form
+	dictVal := map[string]any{}     // every symbol, as the JSON value it holds
+	// poisoned: the dictionary holds something whose substitution into a text
+	// is not documented (a value with braces, a non-string non-integer value,
+	// the columns of a select the model could not follow): any later text that
+	// contains a reference has no reading.
 	poisoned := false
-	// weird: symbols holding a JSON value that is neither a string nor a small
-	// integer; as a whole data value they are passed on as they are, inside a
-	// text they have no documented spelling.
-	weird := map[string]bool{}
-	subst := func(s string) (string, bool) {
-		if poisoned && strings.Contains(s, "{{") {
-			m.add("symbols:adv")
-			return s, false
-		}
-		for k := range weird {
-			if strings.Contains(s, "{{"+k+"}}") {
-				m.add("symbols:adv")
-				return s, false
-			}
-		}
-		if len(dictText) == 0 {
-			return s, true
-		}
-		keys := make([]string, 0, len(dictText))
-		for k := range dictText {
-			keys = append(keys, k)
-		}
-		sort.Strings(keys)
-		for _, k := range keys {
-			s = strings.ReplaceAll(s, "{{"+k+"}}", dictText[k])
-		}
-		if strings.Contains(s, "{{") && strings.Contains(s, "}}") {
-			return s, false // unresolved reference: the server rejects the task
-		}
-		return s, true
-	}
-	for _, t := range op.Tasks {
+	for ti, t := range op.Tasks {
 		m.params++
-		table, ok := subst(t.Table)
-		if !ok {
-			noReading("symbols:unresolved")
-		}
-		var filters, columns []string
-		for _, f := range t.Filters {
-			s, ok := subst(f)
-			if !ok {
-				noReading("symbols:unresolved")
-			}
-			filters = append(filters, s)
-		}
-		for _, c := range t.Columns {
-			s, ok := subst(c)
-			if !ok {
-				noReading("symbols:unresolved")
-			}
-			columns = append(columns, s)
-		}
 		if len(t.Filters) > 0 || len(t.Columns) > 0 || t.Data != "" {
 			m.params++
+		}
+		readOnly := t.Op == "readrows" || t.Op == "select"
+		bad := false
+		mark := func(kind string) {
+			bad = true
+			m.documented = false
+			if kind != "" {
+				m.add(kind)
+			}
+		}
+		subst := func(s string) string {
+			if !strings.Contains(s, "{{") {
+				return s
+			}
+			if poisoned {
+				mark("symbols:adv")
+				return s
+			}
+			if len(dictVal) == 0 {
+				return s // no dictionary yet: the text is used as it is
+			}
+			keys := make([]string, 0, len(dictText))
+			for k := range dictText {
+				keys = append(keys, k)
+			}
+			sort.Strings(keys)
+			for _, k := range keys {
+				s = strings.ReplaceAll(s, "{{"+k+"}}", dictText[k])
+			}
+			if strings.Contains(s, "{{") && strings.Contains(s, "}}") {
+				mark("symbols:unresolved") // the server rejects the task
+			}
+			return s
+		}
+		table := subst(t.Table)
+		var filters, columns []string
+		for _, f := range t.Filters {
+			filters = append(filters, subst(f))
+		}
+		for _, c := range t.Columns {
+			columns = append(columns, subst(c))
 		}
 		tname, plain := "", false
 		var def *tableDef
@@ -149,43 +138,36 @@ func modelTx(op *Op, before dbState, rowids bool) *txModel {
 				m.add("table:other")
 			}
 			if def == nil {
-				// no table (or sqlite_master): no row reading; the request may
-				// only be rejected or change nothing
-				noReading("")
+				// no table (or sqlite_master): no row reading
+				mark("")
 			}
 		}
 		// data object
 		var data map[string]any
-		dataOK := true
 		if t.Data != "" {
 			v, ok := decodeJSON(t.Data)
-			if mm, isObj := v.(map[string]any); ok && isObj {
+			mm, isObj := v.(map[string]any)
+			if !ok || !isObj {
+				mark("body:malformed")
+			} else {
 				data = map[string]any{}
 				for k, x := range mm {
-					nk, ok := subst(k)
-					if !ok {
-						noReading("symbols:unresolved")
-					}
-					if s, isStr := x.(string); isStr && poisoned && strings.Contains(s, "{{") {
-						noReading("symbols:adv")
-					} else if isStr && len(dictVal) > 0 && strings.HasPrefix(s, "{{") && strings.HasSuffix(s, "}}") {
+					nk := subst(k)
+					if s, isStr := x.(string); isStr && len(dictVal) > 0 && strings.HasPrefix(s, "{{") && strings.HasSuffix(s, "}}") {
+						// the whole value is a reference: it is replaced by the
+						// symbol's value, whatever its type
 						name := strings.TrimSuffix(strings.TrimPrefix(s, "{{"), "}}")
 						if val, found := dictVal[name]; found {
 							x = val
 						} else {
-							noReading("symbols:unresolved")
+							mark("symbols:unresolved")
 						}
 					}
 					if _, dup := data[nk]; dup {
-						dataOK = false
+						mark("body:malformed")
 					}
 					data[nk] = x
 				}
-			} else {
-				dataOK = false
-			}
-			if !dataOK {
-				noReading("body:malformed")
 			}
 		}
 		// parameters are classified against the table the task is written for
@@ -198,7 +180,7 @@ func modelTx(op *Op, before dbState, rowids bool) *txModel {
 		if len(filters) > 0 {
 			pf = parseFilters(filters, cdef)
 			if pf == nil {
-				noReading("filter:unparsed")
+				mark("filter:unparsed")
 			} else {
 				filterKind(pf, true, m.add)
 				if !pf.strict {
@@ -207,8 +189,8 @@ func modelTx(op *Op, before dbState, rowids bool) *txModel {
 			}
 		}
 		var colNames []string
-		colsDoc := true
 		if len(columns) > 0 {
+			var colsDoc bool
 			colNames, colsDoc = namesDocumented(cdef, columns, false, rowids)
 			for _, c := range columns {
 				if strings.Contains(c, ",") {
@@ -216,16 +198,15 @@ func modelTx(op *Op, before dbState, rowids bool) *txModel {
 				}
 			}
 			if !colsDoc {
-				noReading("columns:adv")
+				mark("columns:adv")
 			}
 		}
 		var pb *parsedBody
 		if data != nil && (t.Op == "insert" || t.Op == "update") {
-			def := cdef
 			pb = &parsedBody{}
-			br, ok := parseRowObject(def, data, pb)
+			br, ok := parseRowObject(cdef, data, pb)
 			if !ok {
-				noReading("body:adv-key")
+				mark("body:adv-key")
 				pb = nil
 			} else {
 				pb.rows = []bodyRow{br}
@@ -239,49 +220,74 @@ func modelTx(op *Op, before dbState, rowids bool) *txModel {
 				}
 			}
 		}
-		if !m.hasReading || m.unknown || m.expectReject {
-			continue // keep classifying, stop modelling
-		}
-		rows := m.expected[tname]
+		// shape of the task
 		switch t.Op {
 		case "symbols":
 			if t.Table != "" || len(t.Filters) > 0 || len(t.Columns) > 0 || data == nil {
-				noReading("task:adv")
-				continue
+				mark("task:adv")
 			}
+		case "insert":
+			if len(filters) > 0 || len(columns) > 0 || pb == nil {
+				mark("task:adv")
+			}
+		case "update":
+			if pb == nil {
+				mark("task:adv")
+			}
+		case "delete":
+			if len(columns) > 0 {
+				mark("task:adv")
+			}
+		case "select", "readrows":
+		default:
+			mark("task:adv")
+		}
+		if bad {
+			switch {
+			case t.Op == "readrows":
+				// its result is not modelled; the state model is unaffected
+				m.hasFinal, m.finalLost = false, true
+			case t.Op == "select":
+				poisoned = true
+			default:
+				m.hasReading = false
+			}
+			continue
+		}
+		if !m.hasReading || m.unknown || m.expectReject {
+			continue // keep classifying, stop modelling
+		}
+		_ = readOnly
+		rows := m.expected[tname]
+		switch t.Op {
+		case "symbols":
 			for k, x := range data {
+				delete(dictText, k)
+				dictVal[k] = x
 				switch v := x.(type) {
 				case string:
 					if strings.Contains(v, "{{") || strings.Contains(v, "}}") || strings.Contains(k, "{") || strings.Contains(k, "}") {
 						poisoned = true
+						m.add("symbols:adv")
 						continue
 					}
-					dictText[k], dictVal[k] = v, v
-					delete(weird, k)
+					dictText[k] = v
 				case json.Number:
 					if c, ok := cellFor('i', v); ok {
-						dictText[k], dictVal[k] = strconv.FormatInt(c.I, 10), v
-						delete(weird, k)
+						dictText[k] = strconv.FormatInt(c.I, 10)
 					} else {
-						weird[k], dictVal[k] = true, v
-						delete(dictText, k)
+						poisoned = true
+						m.add("symbols:adv")
 					}
 				default:
-					weird[k], dictVal[k] = true, x
-					delete(dictText, k)
+					poisoned = true
+					m.add("symbols:adv")
 				}
 			}
 		case "insert":
-			if len(filters) > 0 || len(columns) > 0 || pb == nil {
-				noReading("task:adv")
-				continue
-			}
 			m.expected[tname] = append(rows, newRowFor(def, pb.rows[0]))
+			m.wrote = true
 		case "update":
-			if pb == nil || (len(filters) > 0 && pf == nil) {
-				noReading("task:adv")
-				continue
-			}
 			var only map[string]bool
 			if len(columns) > 0 {
 				only = map[string]bool{}
@@ -305,11 +311,8 @@ func modelTx(op *Op, before dbState, rowids bool) *txModel {
 					}
 				}
 			}
+			m.wrote = true
 		case "delete":
-			if len(columns) > 0 || (len(filters) > 0 && pf == nil) {
-				noReading("task:adv")
-				continue
-			}
 			yes, unknown := partition(pf, rows)
 			if len(unknown) > 0 {
 				m.unknown = true
@@ -330,14 +333,12 @@ func modelTx(op *Op, before dbState, rowids bool) *txModel {
 				}
 			}
 			m.expected[tname] = keep
+			m.wrote = true
 		case "select":
-			if len(filters) > 0 && pf == nil {
-				noReading("task:adv")
-				continue
-			}
 			yes, unknown := partition(pf, rows)
 			if len(unknown) > 0 || len(yes) > 1 {
-				m.unknown = true // which row a multi-row select stores is not documented
+				// which row a multi-row select stores is not documented
+				poisoned = true
 				continue
 			}
 			if len(yes) == 0 {
@@ -356,11 +357,18 @@ func modelTx(op *Op, before dbState, rowids bool) *txModel {
 			for _, c := range names {
 				cell, ok := r[c]
 				if !ok {
+					// a row inserted earlier in this task list: its server-assigned
+					// row id is not known to the model
+					if c == rowIDName {
+						delete(dictText, c)
+						dictVal[c] = "?"
+						poisoned = poisoned || ti < len(op.Tasks)-1 && refersTo(op.Tasks[ti+1:], rowIDName)
+					}
 					continue
 				}
 				txt, ok := cellText(cell)
 				if !ok || strings.Contains(txt, "{{") || strings.Contains(txt, "}}") {
-					m.unknown = true
+					poisoned = true
 					continue
 				}
 				dictText[c] = txt
@@ -371,16 +379,12 @@ func modelTx(op *Op, before dbState, rowids bool) *txModel {
 				}
 			}
 		case "readrows":
-			if len(filters) > 0 && pf == nil {
-				noReading("task:adv")
-				continue
-			}
 			yes, unknown := partition(pf, rows)
 			if len(yes)+len(unknown) == 0 && t.EmptyError {
 				m.expectReject = true
 				continue
 			}
-			m.hasFinal = true
+			m.hasFinal, m.finalLost = true, false
 			m.finalMust = cloneRows(pick(rows, yes))
 			m.finalMay = cloneRows(pick(rows, append(append([]int{}, yes...), unknown...)))
 			m.finalCols = def.Cols
@@ -392,11 +396,30 @@ func modelTx(op *Op, before dbState, rowids bool) *txModel {
 					}
 				}
 			}
-		default:
-			noReading("task:adv")
 		}
 	}
 	return m
+}
+
+// refersTo: some text of the tasks contains {{name}}.
+func refersTo(tasks []Task, name string) bool {
+	ref := "{{" + name + "}}"
+	for _, t := range tasks {
+		if strings.Contains(t.Table, ref) || strings.Contains(t.Data, ref) {
+			return true
+		}
+		for _, f := range t.Filters {
+			if strings.Contains(f, ref) {
+				return true
+			}
+		}
+		for _, c := range t.Columns {
+			if strings.Contains(c, ref) {
+				return true
+			}
+		}
+	}
+	return false
 }
 
 func judgeTx(res *opResult, op *Op, m *txModel, before, after dbState, resp *srvfix.Response, rejected bool, kinds []string, describe func() string) {
@@ -422,8 +445,9 @@ func judgeTx(res *opResult, op *Op, m *txModel, before, after dbState, resp *srv
 		if changed != "" {
 			res.fail = &vkit.Failure{Sig: "state | changed-without-reading", Observed: describe() + "\n    " + changed + " before: " + renderRows(before[changed], tableDefs[changed].Cols) + "\n    " + changed + " now:    " + renderRows(after[changed], tableDefs[changed].Cols), Expected: "(no reading: only 'unchanged' or a rejection is acceptable)"}
 		}
-		// rows of a 2xx answer must still come from an addressed table
-		if rows, ok := responseRows(resp.Body, false); ok {
+		// rows of a 2xx answer must still come from an addressed table (only
+		// decidable when the task list cannot have changed rows in between)
+		if rows, ok := responseRows(resp.Body, false); ok && changed == "" && !hasWriteTask(op) {
 			for _, r := range rows {
 				if !rowFromAddressed(r, m.addressed, after) {
 					res.fail = &vkit.Failure{Sig: "rows | row-not-in-table", Observed: describe(), Expected: "each returned row is a row of an addressed table"}
@@ -463,6 +487,15 @@ func judgeTx(res *opResult, op *Op, m *txModel, before, after dbState, resp *srv
 			return
 		}
 	}
+}
+
+func hasWriteTask(op *Op) bool {
+	for _, t := range op.Tasks {
+		if t.Op != "readrows" && t.Op != "select" && t.Op != "symbols" {
+			return true
+		}
+	}
+	return false
 }
 
 func rowFromAddressed(r Row, addressed map[string]bool, st dbState) bool {
